@@ -22,13 +22,13 @@ def conform(L: "sc.Loaded", ins, res, viol, readers=(False, True), check_dump=Tr
             if inp.data in seen:
                 continue
             seen.add(inp.data)
+            if inp.status == "undef":
+                continue
             res.evaluations += 1
             res.states += 1
             res.transitions += 1
             o = sc.parse(T, inp.data)
             hexin = inp.data[:48].hex()
-            if inp.status == "undef":
-                continue
             if inp.status in ("eof", "invalid"):
                 if o.ok and must_raise_on_eof:
                     viol(f"parse:returns-on-{inp.status}-input", f"in={hexin}: returned {o.value}", reader, inp)
